@@ -164,6 +164,9 @@ func operand(e Expr, parent int, right bool) []Tok {
 		need = p < parent || (p == parent && right)
 	case Neg:
 		need = parent > 6
+	case Path:
+		// a lone "/" next to an operator is read as the start of a path ("/ and x" is the path "/and" followed by x): parenthesise it
+		need = x.Abs && len(x.Steps) == 0 && x.Start == nil
 	}
 	if need {
 		return wrap(toks)
@@ -438,8 +441,7 @@ func Canon(e Expr) string {
 		}
 		return "(" + Canon(inner) + " * -1)"
 	case Group:
-		switch x.X.(type) {
-		case Num, Str:
+		if constLike(x.X) {
 			return Canon(x.X)
 		}
 		return "{" + Canon(x.X) + "}"
@@ -461,6 +463,22 @@ func Canon(e Expr) string {
 		return canonPath(*x)
 	}
 	panic("xref: Canon: unknown expr")
+}
+
+// constLike reports whether the engine's parser represents e by a bare constant operand:
+// a literal, a parenthesised constant, or a constant under an even number of minus signs.
+func constLike(e Expr) bool {
+	switch x := e.(type) {
+	case Num, Str:
+		return true
+	case Group:
+		return constLike(x.X)
+	case Neg:
+		if y, ok := x.X.(Neg); ok {
+			return constLike(y.X)
+		}
+	}
+	return false
 }
 
 func canonPath(p Path) string {
